@@ -1,2 +1,400 @@
+/* cal <op> ... : vnacal_t / vnacal_new_t / parameters through the public API */
 #include "vh.h"
-int vh_cal(void) { return -1; }
+
+#define NCAL 4
+#define NNEW 8
+static vnacal_t *cal[NCAL];
+static vnacal_new_t *vnew[NNEW];
+static int vnew_cal[NNEW];
+
+static int pos;		/* token cursor */
+
+static const char *tok(void) { return pos < vh_ntok ? vh_tok[pos++] : ""; }
+static long tl(void) { return vh_parse_long(tok()); }
+static double td(void) { return vh_parse_double(tok()); }
+static double complex tc(void) { double r = td(); double i = td(); return r + I * i; }
+static bool more(void) { return pos < vh_ntok; }
+
+static void res(bool ok, long value)
+{
+    if (ok)
+	vh_out("ok %ld cb=%d/%d", value, vh_cb_errors, vh_cb_warnings);
+    else
+	vh_out("fail %s cb=%d/%d", vh_errclass(errno), vh_cb_errors, vh_cb_warnings);
+}
+
+/* read a matrix of per-frequency vectors: rows cols then rows*cols*nf complex numbers (cell major) */
+typedef struct { int rows, cols, nf; double complex **cell; } mat_t;
+
+static mat_t read_mat(int nf)
+{
+    mat_t m;
+    m.rows = (int)tl();
+    m.cols = (int)tl();
+    m.nf = nf;
+    if (m.rows < 0 || m.cols < 0 || m.rows > 16 || m.cols > 16) { m.rows = m.cols = 0; }
+    m.cell = calloc((size_t)m.rows * m.cols + 1, sizeof(double complex *));
+    for (int c = 0; c < m.rows * m.cols; ++c) {
+	m.cell[c] = calloc((size_t)nf + 1, sizeof(double complex));
+	for (int f = 0; f < nf; ++f)
+	    m.cell[c][f] = tc();
+    }
+    return m;
+}
+
+static void free_mat(mat_t *m)
+{
+    for (int c = 0; c < m->rows * m->cols; ++c)
+	free(m->cell[c]);
+    free(m->cell);
+}
+
+static void out_vnadata(vnadata_t *v)
+{
+    int rows = vnadata_get_rows(v), cols = vnadata_get_columns(v), fr = vnadata_get_frequencies(v);
+    vh_out(" type=%d rows=%d cols=%d freqs=%d F", (int)vnadata_get_type(v), rows, cols, fr);
+    for (int f = 0; f < fr; ++f)
+	vh_out_double(vnadata_get_frequency(v, f));
+    vh_out(" D");
+    for (int f = 0; f < fr; ++f)
+	for (int r = 0; r < rows; ++r)
+	    for (int c = 0; c < cols; ++c)
+		vh_out_complex(vnadata_get_cell(v, f, r, c));
+    vh_out(" Z");
+    vh_out_complex(vnadata_get_z0(v, 0));
+}
+
+int vh_cal(void)
+{
+    const char *op;
+    int c;
+
+    if (vh_ntok < 2)
+	return -1;
+    pos = 1;
+    op = tok();
+    vh_cb_reset();
+    errno = 0;
+    if (strcmp(op, "create") == 0) {
+	c = (int)tl();
+	if (c < 0 || c >= NCAL || cal[c] != NULL) return -1;
+	LIB(cal[c] = vnacal_create(vh_error_fn, NULL));
+	res(cal[c] != NULL, 0);
+	return 0;
+    }
+    if (strcmp(op, "load") == 0) {
+	char *path;
+	c = (int)tl();
+	if (c < 0 || c >= NCAL || cal[c] != NULL) return -1;
+	path = vh_parse_hexbytes(tok());
+	LIB(cal[c] = vnacal_load(path, vh_error_fn, NULL));
+	free(path);
+	res(cal[c] != NULL, 0);
+	return 0;
+    }
+    if (strcmp(op, "live") == 0) {
+	vh_out("ok live=%ld", vh_live_count());
+	if (getenv("VH_VERBOSE") != NULL) vh_live_dump();
+	return 0;
+    }
+    /* operations on a vnacal_new_t */
+    if (strncmp(op, "new_", 4) == 0 || strcmp(op, "add") == 0 || strcmp(op, "solve") == 0) {
+	int n;
+	vnacal_new_t *vnp;
+	if (strcmp(op, "new_alloc") == 0) {
+	    int type, rows, cols, fr;
+	    c = (int)tl(); n = (int)tl(); type = (int)tl(); rows = (int)tl(); cols = (int)tl(); fr = (int)tl();
+	    if (c < 0 || c >= NCAL || cal[c] == NULL || n < 0 || n >= NNEW || vnew[n] != NULL) return -1;
+	    LIB(vnew[n] = vnacal_new_alloc(cal[c], type, rows, cols, fr));
+	    vnew_cal[n] = c;
+	    res(vnew[n] != NULL, 0);
+	    return 0;
+	}
+	n = (int)tl();
+	if (n < 0 || n >= NNEW || (vnp = vnew[n]) == NULL) return -1;
+	if (strcmp(op, "new_free") == 0) {
+	    LIB(vnacal_new_free(vnp));
+	    vnew[n] = NULL;
+	    res(true, 0);
+	    return 0;
+	}
+	if (strcmp(op, "new_set_frequency_vector") == 0) {
+	    int nf = vh_ntok - pos, rc;
+	    double *f = malloc(sizeof(double) * (nf + 1));
+	    for (int i = 0; i < nf; ++i) f[i] = td();
+	    LIB(rc = vnacal_new_set_frequency_vector(vnp, f));
+	    free(f);
+	    res(rc == 0, rc);
+	    return 0;
+	}
+	if (strcmp(op, "new_set_z0") == 0) {
+	    int rc; double complex z = tc();
+	    LIB(rc = vnacal_new_set_z0(vnp, z));
+	    res(rc == 0, rc);
+	    return 0;
+	}
+	if (strcmp(op, "new_set_m_error") == 0) {	/* n nf F|N [f..] S|N [nf..] T|N [tr..] */
+	    int nf = (int)tl(), rc;
+	    double *fv = NULL, *sn = NULL, *st = NULL;
+	    if (nf < 0 || nf > 1000) return -1;
+	    if (strcmp(tok(), "F") == 0) { fv = malloc(sizeof(double) * (nf + 1)); for (int i = 0; i < nf; ++i) fv[i] = td(); }
+	    if (strcmp(tok(), "S") == 0) { sn = malloc(sizeof(double) * (nf + 1)); for (int i = 0; i < nf; ++i) sn[i] = td(); }
+	    if (strcmp(tok(), "T") == 0) { st = malloc(sizeof(double) * (nf + 1)); for (int i = 0; i < nf; ++i) st[i] = td(); }
+	    LIB(rc = vnacal_new_set_m_error(vnp, fv, nf, sn, st));
+	    free(fv); free(sn); free(st);
+	    res(rc == 0, rc);
+	    return 0;
+	}
+	if (strcmp(op, "new_set_p_tolerance") == 0 || strcmp(op, "new_set_et_tolerance") == 0 ||
+		strcmp(op, "new_set_pvalue_limit") == 0) {
+	    int rc; double x = td();
+	    if (op[8] == 'p' && op[9] == '_') LIB(rc = vnacal_new_set_p_tolerance(vnp, x));
+	    else if (op[8] == 'e') LIB(rc = vnacal_new_set_et_tolerance(vnp, x));
+	    else LIB(rc = vnacal_new_set_pvalue_limit(vnp, x));
+	    res(rc == 0, rc);
+	    return 0;
+	}
+	if (strcmp(op, "new_set_iteration_limit") == 0) {
+	    int rc, x = (int)tl();
+	    LIB(rc = vnacal_new_set_iteration_limit(vnp, x));
+	    res(rc == 0, rc);
+	    return 0;
+	}
+	if (strcmp(op, "solve") == 0) {
+	    int rc;
+	    LIB(rc = vnacal_new_solve(vnp));
+	    res(rc == 0, rc);
+	    return 0;
+	}
+	if (strcmp(op, "add") == 0) {	/* add n <kind> <m|ab> nf <matrices> <kind args> */
+	    const char *kind = tok();
+	    const char *form = tok();
+	    int nf = (int)tl(), rc = -1;
+	    bool ab = strcmp(form, "ab") == 0;
+	    mat_t a = { 0 }, b;
+	    if (nf < 0 || nf > 1000) return -1;
+	    if (ab) a = read_mat(nf);
+	    b = read_mat(nf);
+	    if (strcmp(kind, "single_reflect") == 0) {
+		int s11 = (int)tl(), port = (int)tl();
+		if (ab) LIB(rc = vnacal_new_add_single_reflect(vnp, a.cell, a.rows, a.cols, b.cell, b.rows, b.cols, s11, port));
+		else LIB(rc = vnacal_new_add_single_reflect_m(vnp, b.cell, b.rows, b.cols, s11, port));
+	    } else if (strcmp(kind, "double_reflect") == 0) {
+		int s11 = (int)tl(), s22 = (int)tl(), p1 = (int)tl(), p2 = (int)tl();
+		if (ab) LIB(rc = vnacal_new_add_double_reflect(vnp, a.cell, a.rows, a.cols, b.cell, b.rows, b.cols, s11, s22, p1, p2));
+		else LIB(rc = vnacal_new_add_double_reflect_m(vnp, b.cell, b.rows, b.cols, s11, s22, p1, p2));
+	    } else if (strcmp(kind, "line") == 0) {
+		int s[4], p1, p2;
+		for (int i = 0; i < 4; ++i) s[i] = (int)tl();
+		p1 = (int)tl(); p2 = (int)tl();
+		if (ab) LIB(rc = vnacal_new_add_line(vnp, a.cell, a.rows, a.cols, b.cell, b.rows, b.cols, s, p1, p2));
+		else LIB(rc = vnacal_new_add_line_m(vnp, b.cell, b.rows, b.cols, s, p1, p2));
+	    } else if (strcmp(kind, "through") == 0) {
+		int p1 = (int)tl(), p2 = (int)tl();
+		if (ab) LIB(rc = vnacal_new_add_through(vnp, a.cell, a.rows, a.cols, b.cell, b.rows, b.cols, p1, p2));
+		else LIB(rc = vnacal_new_add_through_m(vnp, b.cell, b.rows, b.cols, p1, p2));
+	    } else if (strcmp(kind, "mapped") == 0) {
+		int sr = (int)tl(), sc = (int)tl();
+		int *s, *map = NULL, ports;
+		if (sr < 0 || sc < 0 || sr > 16 || sc > 16) { free_mat(&b); if (ab) free_mat(&a); return -1; }
+		s = malloc(sizeof(int) * (sr * sc + 1));
+		for (int i = 0; i < sr * sc; ++i) s[i] = (int)tl();
+		ports = sr > sc ? sr : sc;
+		if (strcmp(tok(), "M") == 0) {
+		    map = malloc(sizeof(int) * (ports + 1));
+		    for (int i = 0; i < ports; ++i) map[i] = (int)tl();
+		}
+		if (ab) LIB(rc = vnacal_new_add_mapped_matrix(vnp, a.cell, a.rows, a.cols, b.cell, b.rows, b.cols, s, sr, sc, map));
+		else LIB(rc = vnacal_new_add_mapped_matrix_m(vnp, b.cell, b.rows, b.cols, s, sr, sc, map));
+		free(s); free(map);
+	    } else {
+		free_mat(&b); if (ab) free_mat(&a);
+		return -1;
+	    }
+	    free_mat(&b);
+	    if (ab) free_mat(&a);
+	    res(rc == 0, rc);
+	    return 0;
+	}
+	return -1;
+    }
+    /* operations on a vnacal_t */
+    c = (int)tl();
+    if (c < 0 || c >= NCAL || cal[c] == NULL)
+	return -1;
+    if (strcmp(op, "free") == 0) {
+	for (int n = 0; n < NNEW; ++n)		/* vnacal_free releases its vnacal_new_t's */
+	    if (vnew[n] != NULL && vnew_cal[n] == c) vnew[n] = NULL;
+	LIB(vnacal_free(cal[c]));
+	cal[c] = NULL;
+	res(true, 0);
+	return 0;
+    }
+    if (strcmp(op, "save") == 0) {
+	char *path = vh_parse_hexbytes(tok());
+	int rc;
+	LIB(rc = vnacal_save(cal[c], path));
+	free(path);
+	res(rc == 0, rc);
+	return 0;
+    }
+    if (strcmp(op, "make_scalar") == 0) {
+	int h; double complex g = tc();
+	LIB(h = vnacal_make_scalar_parameter(cal[c], g));
+	res(h >= 0, h);
+	return 0;
+    }
+    if (strcmp(op, "make_vector") == 0) {
+	int nf = (int)tl(), h;
+	double *f; double complex *g;
+	if (nf < 0 || nf > 1000) return -1;
+	f = malloc(sizeof(double) * (nf + 1)); g = malloc(sizeof(double complex) * (nf + 1));
+	for (int i = 0; i < nf; ++i) f[i] = td();
+	for (int i = 0; i < nf; ++i) g[i] = tc();
+	LIB(h = vnacal_make_vector_parameter(cal[c], f, nf, g));
+	free(f); free(g);
+	res(h >= 0, h);
+	return 0;
+    }
+    if (strcmp(op, "make_unknown") == 0) {
+	int h, other = (int)tl();
+	LIB(h = vnacal_make_unknown_parameter(cal[c], other));
+	res(h >= 0, h);
+	return 0;
+    }
+    if (strcmp(op, "make_correlated") == 0) {	/* c other nsf F|N [f..] sigma.. */
+	int other = (int)tl(), nsf = (int)tl(), h;
+	double *f = NULL, *s;
+	if (nsf < 0 || nsf > 1000) return -1;
+	if (strcmp(tok(), "F") == 0) { f = malloc(sizeof(double) * (nsf + 1)); for (int i = 0; i < nsf; ++i) f[i] = td(); }
+	s = malloc(sizeof(double) * (nsf + 1));
+	for (int i = 0; i < nsf; ++i) s[i] = td();
+	LIB(h = vnacal_make_correlated_parameter(cal[c], other, f, nsf, s));
+	free(f); free(s);
+	res(h >= 0, h);
+	return 0;
+    }
+    if (strcmp(op, "delete_parameter") == 0) {
+	int rc, h = (int)tl();
+	LIB(rc = vnacal_delete_parameter(cal[c], h));
+	res(rc == 0, rc);
+	return 0;
+    }
+    if (strcmp(op, "get_parameter_value") == 0) {
+	int h = (int)tl(); double f = td();
+	double complex v;
+	LIB(v = vnacal_get_parameter_value(cal[c], h, f));
+	if (creal(v) == HUGE_VAL) res(false, 0);
+	else { res(true, 0); vh_out_complex(v); }
+	return 0;
+    }
+    if (strcmp(op, "add_calibration") == 0) {
+	char *name = vh_parse_hexbytes(tok());
+	int n = (int)tl(), ci;
+	if (n < 0 || n >= NNEW || vnew[n] == NULL) { free(name); return -1; }
+	LIB(ci = vnacal_add_calibration(cal[c], name, vnew[n]));
+	free(name);
+	res(ci >= 0, ci);
+	return 0;
+    }
+    if (strcmp(op, "delete_calibration") == 0) {
+	int rc, ci = (int)tl();
+	LIB(rc = vnacal_delete_calibration(cal[c], ci));
+	res(rc == 0, rc);
+	return 0;
+    }
+    if (strcmp(op, "find_calibration") == 0) {
+	char *name = vh_parse_hexbytes(tok());
+	int ci;
+	LIB(ci = vnacal_find_calibration(cal[c], name));
+	free(name);
+	res(ci >= 0, ci);
+	return 0;
+    }
+    if (strcmp(op, "get_calibration_end") == 0) {
+	int e;
+	LIB(e = vnacal_get_calibration_end(cal[c]));
+	res(e >= 0, e);
+	return 0;
+    }
+    if (strcmp(op, "get_info") == 0) {
+	int ci = (int)tl();
+	const char *name;
+	LIB(name = vnacal_get_name(cal[c], ci));
+	if (name == NULL) { res(false, 0); return 0; }
+	res(true, 0);
+	vh_out_hexbytes(name);
+	{
+	    int type, rows, cols, fr;
+	    double fmin, fmax;
+	    double complex z0;
+	    const double *fv;
+	    LIB(type = vnacal_get_type(cal[c], ci));
+	    LIB(rows = vnacal_get_rows(cal[c], ci));
+	    LIB(cols = vnacal_get_columns(cal[c], ci));
+	    LIB(fr = vnacal_get_frequencies(cal[c], ci));
+	    LIB(fmin = vnacal_get_fmin(cal[c], ci));
+	    LIB(fmax = vnacal_get_fmax(cal[c], ci));
+	    LIB(z0 = vnacal_get_z0(cal[c], ci));
+	    LIB(fv = vnacal_get_frequency_vector(cal[c], ci));
+	    vh_out(" type=%d rows=%d cols=%d freqs=%d", type, rows, cols, fr);
+	    vh_out_double(fmin); vh_out_double(fmax); vh_out_complex(z0);
+	    vh_out(" F");
+	    if (fv != NULL) for (int i = 0; i < fr; ++i) vh_out_double(fv[i]);
+	    vh_out(" cb=%d/%d", vh_cb_errors, vh_cb_warnings);
+	}
+	return 0;
+    }
+    if (strcmp(op, "set_fprecision") == 0 || strcmp(op, "set_dprecision") == 0) {
+	int rc, p = (int)tl();
+	LIB(rc = op[4] == 'f' ? vnacal_set_fprecision(cal[c], p) : vnacal_set_dprecision(cal[c], p));
+	res(rc == 0, rc);
+	return 0;
+    }
+    if (strcmp(op, "apply") == 0) {	/* apply c ci m|ab nf f.. <matrices> */
+	int ci = (int)tl();
+	bool ab = strcmp(tok(), "ab") == 0;
+	int nf = (int)tl(), rc;
+	double *f;
+	mat_t a = { 0 }, b;
+	vnadata_t *out;
+	if (nf < 0 || nf > 1000) return -1;
+	f = malloc(sizeof(double) * (nf + 1));
+	for (int i = 0; i < nf; ++i) f[i] = td();
+	if (ab) a = read_mat(nf);
+	b = read_mat(nf);
+	out = vnadata_alloc(vh_error_fn, NULL);
+	if (ab) LIB(rc = vnacal_apply(cal[c], ci, f, nf, a.cell, a.rows, a.cols, b.cell, b.rows, b.cols, out));
+	else LIB(rc = vnacal_apply_m(cal[c], ci, f, nf, b.cell, b.rows, b.cols, out));
+	res(rc == 0, rc);
+	if (rc == 0) LIB(out_vnadata(out));
+	LIB(vnadata_free(out));
+	free(f); free_mat(&b); if (ab) free_mat(&a);
+	return 0;
+    }
+    if (strcmp(op, "property") == 0) {	/* property c ci <pop> <hexdesc> */
+	int ci = (int)tl();
+	const char *pop = tok();
+	char *d = vh_parse_hexbytes(tok());
+	if (d == NULL) return -1;
+	if (strcmp(pop, "set") == 0) {
+	    int rc; LIB(rc = vnacal_property_set(cal[c], ci, "%s", d)); res(rc == 0, rc);
+	} else if (strcmp(pop, "delete") == 0) {
+	    int rc; LIB(rc = vnacal_property_delete(cal[c], ci, "%s", d)); res(rc == 0, rc);
+	} else if (strcmp(pop, "get") == 0) {
+	    const char *v; LIB(v = vnacal_property_get(cal[c], ci, "%s", d));
+	    res(v != NULL, 0); if (v != NULL) vh_out_hexbytes(v);
+	} else if (strcmp(pop, "type") == 0) {
+	    int t; LIB(t = vnacal_property_type(cal[c], ci, "%s", d)); res(t != -1, t);
+	} else if (strcmp(pop, "count") == 0) {
+	    int t; LIB(t = vnacal_property_count(cal[c], ci, "%s", d)); res(t != -1, t);
+	} else if (strcmp(pop, "keys") == 0) {
+	    const char **k; LIB(k = vnacal_property_keys(cal[c], ci, "%s", d));
+	    res(k != NULL, 0);
+	    if (k != NULL) { for (const char **kp = k; *kp; ++kp) vh_out_hexbytes(*kp); LIB(free(k)); }
+	} else { free(d); return -1; }
+	free(d);
+	return 0;
+    }
+    return -1;
+}
